@@ -169,12 +169,21 @@ def one_history(rng, mode, tmpdirs):
         for _ in range(rng.randint(3, 14)):
             act = rng.choice(['access', 'access', 'mutate', 'mutate_original', 'live_start', 'live_start', 'live_next', 'live_next', 'live_next', 'live_next'])
             if act == 'live_start' and n:
-                kind = rng.choice(['iter', 'items', 'prefetch1', 'copy_iter'] if keys else ['iter', 'prefetch1', 'copy_iter'])
+                kind = rng.choice(['iter', 'items', 'prefetch1', 'copy_iter', 'selection_items', 'selection_iter'] if keys else ['iter', 'prefetch1', 'copy_iter', 'selection_iter'])
                 if kind == 'prefetch1' and mode.endswith('_over_table'):
                     kind = 'iter'       # (two threads missing the cache at once both receive the upstream's own object)
-                it = {'iter': lambda: iter(ds), 'items': lambda: iter(ds.items()), 'prefetch1': lambda: iter(ds.prefetch(1, 1)),
-                      'copy_iter': lambda: iter(ds.copy())}[kind]()
-                live.append([kind, it, 0])
+                posmap = None
+                if kind.startswith('selection'):
+                    # a selection that names positions several times, also next to each other: every pair / example
+                    # handed out is an object of its own
+                    posmap = [rng.randrange(n) for _ in range(rng.randint(1, 3))]
+                    posmap = [p for p in posmap for _ in range(rng.choice([1, 2, 2, 3]))]
+                    sel = ds[np.array(posmap)] if rng.random() < 0.5 else ds[list(posmap)]
+                    it = iter(sel.items()) if kind == 'selection_items' else iter(sel)
+                else:
+                    it = {'iter': lambda: iter(ds), 'items': lambda: iter(ds.items()), 'prefetch1': lambda: iter(ds.prefetch(1, 1)),
+                          'copy_iter': lambda: iter(ds.copy())}[kind]()
+                live.append([kind, it, 0, posmap])
                 steps.append(('start_iterator', kind))
                 continue
             if act == 'live_next' and live:
@@ -184,12 +193,13 @@ def one_history(rng, mode, tmpdirs):
                 except StopIteration:
                     live.remove(ent)
                     continue
-                if ent[0] == 'items':
+                if ent[0] in ('items', 'selection_items'):
                     obj = obj[1]
-                steps.append(('next', ent[0], ent[2]))
-                if not deq(obj, pristine[ent[2]]):
-                    fails.append(('handed_out_differs_from_stored', {'mode': mode, 'path': 'live ' + ent[0], 'position': ent[2],
-                                                                      'got': repr(obj)[:200], 'stored': repr(pristine[ent[2]])[:200],
+                pos = ent[3][ent[2]] if ent[3] is not None else ent[2]
+                steps.append(('next', ent[0], ent[2]) if ent[3] is None else ('next', ent[0], ent[2], 'selection', ent[3]))
+                if not deq(obj, pristine[pos]):
+                    fails.append(('handed_out_differs_from_stored', {'mode': mode, 'path': 'live ' + ent[0], 'position': pos,
+                                                                      'got': repr(obj)[:200], 'stored': repr(pristine[pos])[:200],
                                                                       'steps': steps[:]}))
                 handed.append(obj)
                 ent[2] += 1
